@@ -207,6 +207,35 @@ class C06Monitor:
                                 "where": where})
                         return
 
+    def index_history(self, t):
+        """index markets record nothing of their own for the index: the value for a past time is computed on demand
+        from the components' records, so it is asked again later (time 0, the middle, a rotating time)."""
+        hist = self.__dict__.setdefault("idx_hist", {})
+        for m in self.sim.markets:
+            if not hasattr(m, "get_index"):
+                continue
+            for name in INDEX_SCALARS:
+                f = getattr(m, name, None)
+                if f is None:
+                    continue
+                h = hist.setdefault((m.market_id, name), {})
+                for past in sorted({0, t // 2, (t * 5 + 1) % (t + 1)} - {t}):
+                    if past in h:
+                        self.res.count("index_history_slots_compared")
+                        try:
+                            now_v = f(past)
+                        except Exception as e:  # noqa
+                            self.v("history", "query-for-a-past-time-refused:" + name, {"time": past, "now": t, "exc": repr(e)})
+                            return
+                        if now_v != h[past] and not (now_v != now_v and h[past] != h[past]):
+                            self.v("history", "recorded-value-for-a-past-time-changed:" + name.replace("get_", ""),
+                                   {"market": m.market_id, "time": past, "now": t, "was": h[past], "is": now_v})
+                            return
+                try:
+                    h[t] = f(t)
+                except Exception:  # noqa
+                    pass
+
     # ---- sink ---------------------------------------------------------------------
     def on_event(self, ev):
         if self.stop:
@@ -292,6 +321,7 @@ class C06Monitor:
                     self.compare_history(t - 1, "at-next-step-end")
                     self.snap = self.take()
                     self.snap_time = t
+                    self.index_history(t)
         elif k == "hook":
             if "mtimes" in ev:
                 res.count("hook_time_checks")
